@@ -65,11 +65,22 @@ class H(common.Harness):
         it.stubs[U.is_balanced_html] = self.stub_balanced
         it.stubs[re.finditer] = self.stub_finditer
         it.stubs[re.sub] = self.stub_sub
-        it.stubs[AN.SpanUpdater.get_diff_steps] = lambda a, b: list(self.ops)
+        import fast_diff_match_patch
+
+        it.stubs[fast_diff_match_patch.diff] = self.stub_dmp
+        it.stubs[re.search] = lambda pattern, text, flags=0: (re.search(pattern, text, flags) if isinstance(text, str) else stubs.sym_search(self.eng, pattern, text, flags, n=self.n, tag="rs"))
         it.stubs[difflib.SequenceMatcher] = lambda a=None, b=None, autojunk=True, **k: self
         it.stubs[list] = lambda x=(): x if isinstance(x, stubs.FirstLast) else list(x)
 
     # -- stubs
+    def stub_dmp(self, a, b, timelimit=0, checklines=True, cleanup="Semantic", counts_only=True, **kw):
+        """fast_diff_match_patch.diff: a valid script; it is the MINIMAL script only in the exact configuration
+        (no time limit, no line-mode pre-pass, no clean-up) - the forced-alignment clause needs that."""
+        exact = (not isinstance(timelimit, SInt)) and timelimit == 0 and not checklines and cleanup == "No" and counts_only and not kw
+        if not exact:
+            self.eng.path_state["inexact_diff"] = {"timelimit": timelimit, "checklines": checklines, "cleanup": cleanup}
+        return list(self.ops)
+
     def get_opcodes(self):
         return list(self.opcodes)
 
@@ -111,7 +122,9 @@ class H(common.Harness):
             plain = target
             self.script = None
         else:
-            use_dmp = eng.choose([z3.Bool("use_dmp"), z3.Not(z3.Bool("use_dmp"))]) == 0
+            use_dmp = True if self.forced else eng.choose([z3.Bool("use_dmp"), z3.Not(z3.Bool("use_dmp"))]) == 0
+            # (forced alignment is claimed for the default engine only: difflib's SequenceMatcher is not a
+            # minimal diff - known finding C10-difflib-not-minimal)
             self.use_dmp = use_dmp
             la = z3.IntVal(0)
             lb = z3.IntVal(0)
@@ -189,6 +202,9 @@ class H(common.Harness):
         if kind == "exc":
             return [self.check("no_exception:" + type(out).__name__, False, self.witness)]
         fs = []
+        if self.eng.path_state.get("inexact_diff") is not None:
+            cfg = self.eng.path_state["inexact_diff"]
+            fs.append(self.check("C10:diff_engine_called_in_its_exact_minimal_configuration", False, lambda m: {"diff_config": {k: repr(v) for k, v in cfg.items()}, **self.witness(m)}))
         if not isinstance(out, TStr):
             out = TStr([("lit", out)], self.n) if isinstance(out, str) else None
         if out is None:
@@ -296,7 +312,9 @@ class HU(common.Harness):
 
         self.AN = AN
         self.K = params["K"]
-        self.interp.stubs[AN.SpanUpdater.get_diff_steps] = lambda a, b: list(self.ops)
+        import fast_diff_match_patch
+
+        self.interp.stubs[fast_diff_match_patch.diff] = lambda a, b, **kw: list(self.ops)
 
     def run(self):
         import bisect
@@ -516,6 +534,61 @@ def replay(w, want=None):
     return first[:5] + (tried,)
 
 
+def stress_forced_alignment(engines=(True, False)):
+    """texts on which a non-minimal diff shows: long multi-line plain texts with repeated lines, sources that
+    only insert foreign characters.  Returns (plain, source, spans, output, problem) or None."""
+    import eyecite.annotate as AN
+
+    line = "Roe v. Wade, 410 U.S. 113, 120 (1973)"
+    lines = ["See 2 F.3d 4", "Id. at 5", line, line, line, line, "Id. at 5", "See 2 F.3d 4", line, "Id. at 9"]
+    plain = "\n".join(lines)
+    starts = []
+    pos = 0
+    for ln in lines:
+        starts.append(pos)
+        pos += len(ln) + 1
+    for wrap_idx, tab_idx in ((2, 6), (3, 9), (4, 0), (5, 7), (8, 1)):
+        src_lines = list(lines)
+        src_lines[wrap_idx] = "<b>" + lines[wrap_idx] + "</b>"
+        src_lines[tab_idx] = "\t" + lines[tab_idx]
+        source = "\n".join(src_lines)
+        spans = [(starts[i], starts[i] + len(lines[i])) for i in range(len(lines))]
+        anns = [((s, e), B(j), A(j)) for j, (s, e) in enumerate(spans)]
+        for use_dmp in engines:
+            try:
+                out = AN.annotate_citations(plain, anns, source_text=source, use_dmp=use_dmp)
+            except Exception as ex:
+                return plain, source, spans, None, f"raised {type(ex).__name__}"
+            # expected position of every annotation in the source
+            exp, p = [], 0
+            for i, ln in enumerate(src_lines):
+                off = 3 if i == wrap_idx else (1 if i == tab_idx else 0)
+                exp.append((p + off, p + off + len(lines[i])))
+                p += len(ln) + 1
+            stripped, posmap = "", {}
+            k = 0
+            while k < len(out):
+                hit = False
+                for j in range(len(anns)):
+                    for tag, mark in ((B(j), ("B", j)), (A(j), ("A", j))):
+                        if out.startswith(tag, k):
+                            posmap[mark] = len(stripped)
+                            k += len(tag)
+                            hit = True
+                            break
+                    if hit:
+                        break
+                if not hit:
+                    stripped += out[k]
+                    k += 1
+            if stripped != source:
+                return plain, source, spans, out, "C09: stripped output differs from the source"
+            for j, (a, b) in enumerate(exp):
+                if posmap.get(("B", j)) != a or posmap.get(("A", j)) != b:
+                    return plain, source, spans, out, f"C10:forced_alignment: annotation {j} encloses source[{posmap.get(('B', j))}:{posmap.get(('A', j))}], expected [{a}:{b}] (use_dmp={use_dmp})"
+    return None
+
+
 def replay_updater(w):
     import bisect
 
@@ -606,6 +679,18 @@ def run_property(rep, pid):
             continue
         w = f["witness"]
         rep.replays += 1
+        if cl == "C10:diff_engine_called_in_its_exact_minimal_configuration":
+            if "inexact" in seen:
+                continue
+            seen.add("inexact")
+            hit = stress_forced_alignment(engines=(True,))
+            if hit:
+                plain, source, spans, out, problem = hit
+                rep.violation(f"diff engine not called in its exact configuration ({w.get('diff_config')}); annotate_citations on a {len(plain)}-character multi-line text with repeated lines and a source that only inserts foreign characters: {problem}", {"kind": "stress", "config": w.get("diff_config")})
+            else:
+                rep.spurious += 1
+                rep.inconc(f"diff engine called with {w.get('diff_config')}: minimality is no longer guaranteed, but the stress texts show no misalignment")
+            continue
         if name == "span_updater":
             plain, source, bad = replay_updater(w)
             if bad:
@@ -634,6 +719,18 @@ def run_property(rep, pid):
         else:
             rep.spurious += 1
             rep.inconc(f"{name}/{cl}: model did not reproduce on the real code ({tried} concrete realisations tried): {w}")
+    if pid == "C10":
+        known = [k for k in common.known_findings("C10") if k.get("status") == "known"]
+        rep.replays += 1
+        hit = stress_forced_alignment(engines=(False,))
+        if hit:
+            if known:
+                rep.known_lines.append(f"KNOWN-FINDING: property=C10 {known[0]['what'][:240]}")
+            else:
+                rep.violation(f"annotate_citations(use_dmp=False) mis-aligns annotations on a text with repeated lines: {hit[4]}", {"kind": "stress", "config": "difflib"})
+        hit = stress_forced_alignment(engines=(True,))
+        if hit:
+            rep.violation(f"annotate_citations (default diff engine) mis-aligns annotations on a text with repeated lines whose source only inserts foreign characters: {hit[4]}", {"kind": "stress", "config": "dmp"})
     # regression witnesses
     import eyecite.annotate as AN
 
@@ -707,6 +804,10 @@ def replay_file(path):
 
     d = json.load(open(path))
     r = d["replay"]
+    if r["kind"] == "stress":
+        hit = stress_forced_alignment(engines=(True,))
+        print(hit[4] if hit else None)
+        return 1 if hit else 0
     if r["kind"] == "updater":
         print(replay_updater(r["witness"]))
         return 1 if replay_updater(r["witness"])[2] else 0
